@@ -126,19 +126,20 @@ def differential(chunk=None):
                 if got != t % cargs:
                     bad += 1
                     print("M3 mismatch", v, t, repr(got), repr(t % cargs))
-            for tmpl, nargs in (("%d %d", 1), ("%08X", 2), ("a=%x b=%X c=%d", 2)):
+            for tmpl, nargs in (("%d %d", 1), ("%08X", 2), ("a=%x b=%X c=%d", 2), ("now %d%", 1), ("mode %y", 1), ("5% low %d", 1),
+                                ("100%", 0), ("%d %", 2), ("%d%%", 1)):
                 sa = tuple(pinned(v) for _ in range(nargs))
                 ca = tuple(v for _ in range(nargs))
                 try:
                     tmpl % ca
                     exp = None
-                except TypeError as ex:
-                    exp = str(ex)
+                except (TypeError, ValueError) as ex:
+                    exp = type(ex).__name__ + str(ex)
                 try:
                     tmpl % sa
                     got = None
-                except TypeError as ex:
-                    got = str(ex)
+                except (TypeError, ValueError) as ex:
+                    got = type(ex).__name__ + str(ex)
                 n += 1
                 if got != exp:
                     bad += 1
